@@ -18,7 +18,8 @@ RULE = ("(i) twin dimension-wise DensityEstimation runs on the same data that di
         "(iii) the cached matrix entries are audited against the reference Gram entries; (iv) interpolation just below / above the "
         "threshold vs the reference interpolant. distinct = digest(driver, data digest, grids); non-trivial = twin run with >=3 "
         "evaluations or a hand-over sequence with a grid of >=200 points")
-REQUIRED = ["twin_scheme", "twin_surplus_keys", "twin_surpluses", "twin_interpolation", "handover_b_vs_reference",
+RULE += (" (v) the right-hand side of uniform grids just below / above the threshold (incl. data on grid lines and grid points) vs the mean-of-hats reference.")
+REQUIRED = ["rhs_size_paths", "twin_scheme", "twin_surplus_keys", "twin_surpluses", "twin_interpolation", "handover_b_vs_reference",
             "handover_surpluses_vs_twin", "handover_reused_entries", "R_cache_audit", "interpolation_size_paths"]
 MIN_NONTRIVIAL = {"quick": 40, "thorough": 600}
 CHUNK = {"quick": 3, "thorough": 20}
@@ -27,7 +28,7 @@ ASSUMPTIONS = ["refinement decisions come from a stateless geometry-hash estimat
 
 
 def cases(tier, seed):
-    n1, n2, n3, n4 = (36, 8, 40, 30) if tier == "quick" else (900, 100, 800, 500)
+    n1, n2, n3, n4 = (36, 8, 40, 90) if tier == "quick" else (900, 100, 800, 1500)
     out = [{"gen": "twin", "seed": case_seed(seed, "C17", "twin", i), "tier": tier} for i in range(n1)]
     out += [{"gen": "twin_large", "seed": case_seed(seed, "C17", "twin_large", i), "tier": tier} for i in range(n2)]
     out += [{"gen": "handover", "seed": case_seed(seed, "C17", "handover", i), "tier": tier} for i in range(n3)]
@@ -261,6 +262,13 @@ def run_interp(case, res):
         op = make_op(X, labels, d, masslumping=False, lambd=0.01)
         combi = StandardCombi(np.zeros(d), np.ones(d), operation=op, print_output=False, log_level=100, print_level=100)
         op.grid.numPoints = 2 ** np.asarray(lv, dtype=int) - 1
+        # right-hand side: vectorised small-grid path (< 200 points) vs hats-in-support large-grid path, same reference
+        bgot = np.asarray(op.calculate_B(op.data, lv), dtype=float)
+        sgn = np.ones(len(X)) if labels is None else labels
+        bref = (demodel.hat_matrix(demodel.uniform_stripes(lv), X) * sgn[:, None]).sum(axis=0) / len(X)
+        nb = len(bref)
+        res.close("rhs_size_paths", bgot, bref, 1e-13, "C17_rhs_differs_from_reference:uniform:%s" % ("ge_200" if nb >= 200 else "lt_200"),
+                  "calculate_B (uniform path, %d points, data style %s) differs from the mean of the hat functions" % (nb, style), dict(cfg, levels=lv))
         al = np.asarray(op.solve_density_estimation(lv), dtype=float)
         op.surpluses[tuple(lv)] = al
         cg = ComponentGridInfo(lv, 1)
